@@ -140,6 +140,9 @@ class Queue(mp_Queue):
             wacquire = None
 
         while True:
+            # An EPIPE is only the sign of a closed pipe when it comes from
+            # sending the data, not from serializing the object.
+            sending = False
             try:
                 nacquire()
                 try:
@@ -148,6 +151,7 @@ class Queue(mp_Queue):
                 finally:
                     nrelease()
                 while True:
+                    sending = False
                     try:
                         obj = bpopleft()
                     except IndexError:
@@ -161,6 +165,7 @@ class Queue(mp_Queue):
 
                     # serialize the data before acquiring the lock
                     obj_ = dumps(obj, reducers=reducers)
+                    sending = True
                     if wacquire is None:
                         send_bytes(obj_)
                     else:
@@ -172,7 +177,11 @@ class Queue(mp_Queue):
                     # Remove references early to avoid leaking memory
                     del obj, obj_
             except BaseException as e:
-                if ignore_epipe and getattr(e, "errno", 0) == errno.EPIPE:
+                if (
+                    ignore_epipe
+                    and sending
+                    and getattr(e, "errno", 0) == errno.EPIPE
+                ):
                     return
                 # Since this runs in a daemon thread the resources it uses
                 # may be become unusable while the process is cleaning up.
